@@ -28,6 +28,7 @@ type VerifyOpts struct {
 	Prop       string
 	SafetyTags []string // property tags carried by automatic safety obligations
 	Safety     bool
+	AllowFnSafety bool // check mode: per-function `safety[...]` directives switch safety obligations on
 	Findings   []*Finding
 }
 
@@ -43,6 +44,13 @@ func (P *Program) verifyFunction(key string, opts VerifyOpts) (res *FnResult) {
 	c.fnKey = key
 	c.findings = opts.Findings
 	c.safetyOn = opts.Safety && !ct.NoSafety
+	// `safety[Cxx]` on a function: its no-panic obligations are part of that property
+	// even when the property does not ask for them everywhere
+	for _, t := range ct.Safety {
+		if t == opts.Prop && !ct.NoSafety && opts.AllowFnSafety {
+			c.safetyOn = true
+		}
+	}
 	if ct.Native {
 		c.sc.native = true
 		c.trust("lemma " + key + ": decided over the solvers' native string theory (strings as code-point sequences, a superset of Go's byte strings)")
